@@ -129,7 +129,7 @@ let () =
         let lo = take n v and hi = take n (drop n v) and p = take n (drop (2 * n) v) in
         let us = List.map float_of_string (toks right) in
         let lt (x : float) y = x < y in
-        let (c, us') = pm 0.0 1.0 2.0 0.5 ( +. ) ( -. ) ( *. ) ( /. ) ( ** ) lt (nm +. 1.) (1.0 /. (nm +. 1.0)) prob lo hi p us in
+        let (c, us') = pm 0.0 1.0 2.0 0.5 ( +. ) ( -. ) ( *. ) ( /. ) ( ** ) lt (nm +. 1.) (1.0 /. (nm +. 1.0)) (fun (x : float) y -> x = y) prob lo hi p us in
         Printf.printf "c=%s used=%d\n" (join hexf c) (List.length us - List.length us')
       | "T" :: n :: _k :: _seed :: rest ->
         let ranks = Array.of_list (List.map int_of_string rest) in
